@@ -4,8 +4,9 @@ Model of packages/tokens/src/rwa/claim_issuer/storage.rs, line by line, and of a
 contract whose `is_claim_valid` is composed from those helpers exactly as the documentation of
 packages/tokens/src/rwa/claim_issuer/mod.rs prescribes (extract signature data → key allowed for
 the topic → not expired → build message → not revoked → verify the signature), for the three
-library verifiers (scheme numbers 101 = Ed25519, 102 = Secp256r1, 103 = Secp256k1; the numbers are
-the harness contract's choice, as the trait leaves them to the implementor).
+library verifiers (scheme numbers 101 / 111 = Ed25519, 102 / 112 = Secp256r1, 103 / 113 = Secp256k1;
+the numbers are the harness contract's choice, as the trait leaves them to the implementor — two
+numbers per verifier, so that ONE public key can be a signing key under TWO schemes).
 
 Cryptography is an oracle:
 * a public key is a natural number naming its byte string (0 = the empty byte string);
@@ -25,6 +26,9 @@ def MAX_REGISTRIES_PER_KEY : Nat := 20
 def ED25519 : Nat := 101
 def SECP256R1 : Nat := 102
 def SECP256K1 : Nat := 103
+def ED25519_B : Nat := 111
+def SECP256R1_B : Nat := 112
+def SECP256K1_B : Nat := 113
 
 /-- ledger facts an issuer reads -/
 structure Env where
@@ -154,9 +158,9 @@ def buildClaimMessage (env : Env) (s : Issuer) (self identity topic : Nat) (data
 
 /-- `expected_sig_data_len` of the verifier selected by the scheme number -/
 def expectedLen (scheme : Nat) : Option Nat :=
-  if scheme = ED25519 then some 96
-  else if scheme = SECP256R1 then some 129
-  else if scheme = SECP256K1 then some 133
+  if scheme = ED25519 ∨ scheme = ED25519_B then some 96
+  else if scheme = SECP256R1 ∨ scheme = SECP256R1_B then some 129
+  else if scheme = SECP256K1 ∨ scheme = SECP256K1_B then some 133
   else none
 
 /-- `extract_signature_data`: only the length is checked -/
